@@ -1,6 +1,4 @@
 """C04 — validation is total: only rule errors escape, collecting mode never raises."""
-import contextlib
-import signal
 import traceback
 
 from hypothesis import strategies as st
@@ -29,21 +27,7 @@ ASSUMPTIONS = [
 SENTINEL = ("prefilled", "entry")
 
 
-class Timeout(Exception):
-    pass
-
-
-@contextlib.contextmanager
-def time_limit(sec):
-    def h(signum, frame):
-        raise Timeout()
-    old = signal.signal(signal.SIGALRM, h)
-    signal.alarm(sec)
-    try:
-        yield
-    finally:
-        signal.alarm(0)
-        signal.signal(signal.SIGALRM, old)
+from vf.runner import CaseTimeout as Timeout, time_limit  # noqa: E402
 
 
 def frame_of(exc):
